@@ -116,7 +116,10 @@ theorem loadLeaf_wf (t : Ty) (p : PCol) (n : Nat) (b : Bitmap) (v : Vec) (ht : i
     (h : loadLeaf t p n b = some v) : Vec.wf v = true := by
   unfold loadLeaf at h
   split at h
-  · cases h
+  · cases p with
+    | const x c => simp at h; subst h; simp [Vec.wf, ht]
+    | dict es sel c => simp at h
+    | plain vals c => simp at h
   · cases p with
     | const x c => simp at h; subst h; simp [Vec.wf, ht]
     | dict es sel c => simp at h; subst h; simp [Vec.wf, ht]
